@@ -9,7 +9,7 @@ let int_of_ascii (Ascii (a, b, c, d, e, f, g, h)) =
 let unhex s = List.init (Stdlib.String.length s / 2) (fun i -> ascii_of_int (int_of_string ("0x" ^ Stdlib.String.sub s (2 * i) 2)))
 let hex l = Stdlib.String.concat "" (List.map (fun c -> Printf.sprintf "%02x" (int_of_ascii c)) l)
 let rec str_of = function EmptyString -> "" | String (c, r) -> Stdlib.String.make 1 (Char.chr (int_of_ascii c)) ^ str_of r
-let show (k, t) = (match k with KIdent -> "I" | KNum -> "N" | KFloat -> "F" | KString -> "S" | KError -> "E" | KLineEnd -> "NL" | KLit tok -> "L" ^ str_of tok) ^ ":" ^ hex t
+let show (k, t) = (match k with KIdent -> "I" | KNum -> "N" | KFloat -> "F" | KString -> "S" | KError -> "E" | KLf -> "NL" | KCrLf -> "NL" | KLit tok -> "L" ^ str_of tok) ^ ":" ^ hex t
 let () =
   try while true do
     let line = Stdlib.String.trim (input_line stdin) in
